@@ -145,12 +145,29 @@ def gen_impure_case(rng, tier):
     on_miss = {"table": [[k, rng.randrange(1, nvals)] for k in rng.sample(keys, rng.randint(0, len(keys)))],
                "default": rng.randrange(1, nvals)}
     beh = []
+    rank = {k: i for i, k in enumerate(keys)}      # nested lookups only go to keys of lower rank: no cycles
     for k in rng.sample(keys, rng.randint(1, len(keys))):
         script = []
         if rng.random() < 0.7:
             for _ in range(rng.choice([1, 1, 2, 3])):
                 k2 = k if rng.random() < 0.5 else rng.choice(keys)
-                kind = rng.choice(["set", "set", "set", "del", "pop", "clear"])
+                kind = rng.choice(["set", "set", "set", "del", "pop", "clear", "in", "len", "lookup", "lookup"])
+                if kind == "lookup":
+                    lower = [x for x in keys if rank[x] < rank[k]]
+                    if not lower:
+                        kind = "in"
+                    else:
+                        k2 = rng.choice(lower)
+                        kind = rng.choice(["getitem", "get", "setdefault"])
+                if kind in ("get", "setdefault"):
+                    script.append({"op": kind, "k": k2, "d": rng.randrange(nvals)})
+                    continue
+                if kind in ("getitem", "in"):
+                    script.append({"op": kind, "k": k2})
+                    continue
+                if kind == "len":
+                    script.append({"op": "len"})
+                    continue
                 if kind == "set":
                     script.append({"op": "set", "k": k2, "v": rng.randrange(nvals)})
                 elif kind == "del":
@@ -449,6 +466,16 @@ def run_impl(case):
                             cur.pop(key(sop["k"]), val(sop["d"]))
                         elif sop["op"] == "clear":
                             cur.clear()
+                        elif sop["op"] == "getitem":
+                            cur[key(sop["k"])]
+                        elif sop["op"] == "get":
+                            cur.get(key(sop["k"]), val(sop["d"]))
+                        elif sop["op"] == "setdefault":
+                            cur.setdefault(key(sop["k"]), val(sop["d"]))
+                        elif sop["op"] == "in":
+                            key(sop["k"]) in cur
+                        elif sop["op"] == "len":
+                            len(cur)
                         else:
                             raise AssertionError(sop)
                     except KeyError:
@@ -642,6 +669,16 @@ def _script_op(o):
         return "Pop %s (Some %s)" % (cnat(o["k"]), cnat(o["d"]))
     if o["op"] == "clear":
         return "Clear"
+    if o["op"] == "getitem":
+        return "GetItem %s" % cnat(o["k"])
+    if o["op"] == "get":
+        return "Get %s %s" % (cnat(o["k"]), cnat(o["d"]))
+    if o["op"] == "setdefault":
+        return "SetDefault %s %s" % (cnat(o["k"]), cnat(o["d"]))
+    if o["op"] == "in":
+        return "Contains %s" % cnat(o["k"])
+    if o["op"] == "len":
+        return "Len"
     raise ValueError(o)
 
 
